@@ -62,7 +62,7 @@ def post(info):
         return 'no refusal was exercised'
 
 
-PART = Part('histories', 'machine', run_case, machine=_machine, quick=1000, thorough=64000, quick_shards=8,
+PART = Part('histories', 'machine', run_case, machine=_machine, quick=2500, thorough=64000, quick_shards=8,
             steps=(40, 60))
 PART.new_harness = new_harness
 PARTS = [PART]
